@@ -127,6 +127,12 @@ func (fr *frame) sprintf(format string, hasFormat bool, args []value, ln bool) v
 		nat = append(nat, n)
 	}
 	var s string
+	if hasFormat && len(pieces) > 0 && strings.Contains(format, "%q") {
+		// %q of a symbolic string: rendered as "..." without escaping (formatting is never the
+		// subject of a check; recorded as an approximation)
+		format = strings.ReplaceAll(format, "%q", "\"%v\"")
+		fr.i.stubsUsed["fmt: %q of a symbolic string rendered unescaped"] = true
+	}
 	switch {
 	case hasFormat:
 		s = fmt.Sprintf(format, nat...)
@@ -639,7 +645,16 @@ func init() {
 		return fr.i.binop(token.MUL, types.Typ[types.Int64], fr.i.ps.clock, int64(1e9))
 	})
 	ext("runtime.nanotime", externals["time.runtimeNano"])
-	ext("time.Sleep", func(fr *frame, a []value) value { fr.i.yield("Sleep"); return nil })
+	ext("time.Sleep", func(fr *frame, a []value) value {
+		// virtual time never advances on its own: a sleeping background thread sleeps forever
+		if fr.i.sched.cur != nil && fr.i.sched.cur.id != 0 {
+			fr.i.sched.cur.daemon = true
+			fr.i.blockUntil(func() bool { return false }, "time.Sleep")
+			return nil
+		}
+		fr.i.yield("Sleep")
+		return nil
+	})
 	ext("github.com/gofiber/utils/v2.Timestamp", func(fr *frame, a []value) value {
 		return fr.conv(types.Typ[types.Uint32], types.Typ[types.Int64], fr.i.ps.clock)
 	})
